@@ -26,6 +26,8 @@ Definition store_range_first (num_groups : Z) : Z := 1.
 Definition store_range_stop (num_groups : Z) : Z := (num_groups + 1).
 (* self._save_part(0, result.group(0)) *)
 Definition store_whole_index (num_groups : Z) : Z := 0.
+(* the loop branch is taken when (source test: num_groups) *)
+Definition store_loop_when (num_groups : Z) : bool := (negb (num_groups =? 0)).
 
 (* return Result(True, True) *)
 Definition as_ret_empty : bool * bool := (true, true).
